@@ -1064,13 +1064,25 @@ func (w *wk) runBatch(strs []string) BatchOut {
 		g := runs[i]
 		if !g.dead && g.b != nil {
 			// (operations with attached files embed the backend's blob hashes - git hashes a header
-			// too, mockRepo does not - so their bytes legitimately differ)
+			// too, mockRepo does not - so their bytes legitimately differ,
+			// and so do the operations that name such an operation as their target)
 			gi, mi := []string{}, []string{}
+			var tainted []string
 			for k, e := range g.exp {
-				if k < len(r.exp) && len(e.view.Files) == 0 && len(r.exp[k].view.Files) == 0 {
-					gi = append(gi, e.view.Id)
-					mi = append(mi, r.exp[k].view.Id)
+				if k >= len(r.exp) {
+					break
 				}
+				m := r.exp[k]
+				dep := len(e.view.Files) > 0 || len(m.view.Files) > 0
+				for _, t := range tainted {
+					dep = dep || strings.Contains(e.view.Payload, t) || strings.Contains(m.view.Payload, t)
+				}
+				if dep {
+					tainted = append(tainted, e.view.Id, m.view.Id)
+					continue
+				}
+				gi = append(gi, e.view.Id)
+				mi = append(mi, m.view.Id)
 			}
 			if strings.Join(gi, ",") != strings.Join(mi, ",") || len(g.exp) != len(r.exp) {
 				b.viol(r, "c04.ids", "ids-differ-between-backends", "GoGitRepo: bug %s ops %v; mockRepo: bug %s ops %v", g.id, gi, r.id, mi)
